@@ -1,5 +1,6 @@
 //! hfull: correspondence + oracle runs; sub-command `cXX` or `cXX-<variant>` selects the module.
 mod props;
+mod scaffold;
 use hcommon::{install_panic_hook, parse_args};
 
 fn main() {
@@ -7,6 +8,7 @@ fn main() {
     let args = parse_args();
     let key = args.prop.split('-').next().unwrap_or("").to_string();
     match key.as_str() {
+        "scaffold" => scaffold::demo(),
         "c02" => props::c02::run(&args),
         "c04" => props::c04::run(&args),
         "c05" => props::c05::run(&args),
